@@ -301,9 +301,28 @@ def gen(args) -> list:
                 z = [[False] * 3] * 3
                 ev.update(lt=z, le=z, gt=z, ge=z, cmp=[[0] * 3] * 3, maxi=[[0] * 3] * 3, mini=[[0] * 3] * 3)
             other = object()
-            ev["unrelated_eq_false"] = (vals[0] != other) and not (vals[0] == other) and not (vals[0] == 5) and not (vals[0] == "x")
+            # unrelated types: builtins, the standard library's look-alikes and every *other* value type of the package
+            # (the ones that share attribute names such as .seconds, .days, .nanosecond_of_day are the tempting ones)
+            import datetime as _dt
+
+            import pyoda_time as _pt
+
+            foreign = [5, "x", other, 2.5, _dt.timedelta(seconds=3), _dt.date(2020, 1, 2), _dt.time(1, 2), _dt.datetime(2020, 1, 2),
+                       _pt.Duration.from_seconds(3), _pt.Offset.from_seconds(5), _pt.LocalTime(1, 2), _pt.LocalDate(2020, 1, 2),
+                       _pt.LocalDate(2020, 1, 2).at(_pt.LocalTime(1, 2)), _pt.Instant.from_unix_time_seconds(7), _pt.Period.from_seconds(3),
+                       _pt.YearMonth(year=2020, month=1), _pt.AnnualDate(1, 2)]
+            foreign = [f for f in foreign if type(f) is not type(vals[0])]
+            x0 = vals[0]
+            ev["unrelated_eq_false"] = all((x0 != f) and not (x0 == f) for f in foreign)
             if typ in ORDERED:
-                ev["unrelated_order_refused"] = all(_cmp(f) is None for f in (lambda: vals[0] < 5, lambda: vals[0] >= "x", lambda: vals[0] < other))
+                ok = True
+                for f in foreign:
+                    for fn in (lambda: x0 < f, lambda: x0 <= f, lambda: x0 > f, lambda: x0 >= f):
+                        if _cmp(fn) is not None:
+                            ok = False
+                    if hasattr(x0, "compare_to") and _cmp(lambda: x0.compare_to(f)) is not None:
+                        ok = False
+                ev["unrelated_order_refused"] = ok
             else:
                 ev["unrelated_order_refused"] = True
             evs.append(ev)
